@@ -1249,8 +1249,12 @@ func (db *DB) acquireReadLock(ctx context.Context) error {
 		return nil
 	}
 
-	// Start long running read-transaction to prevent checkpoints.
-	tx, err := db.db.BeginTx(ctx, nil)
+	// Start long running read-transaction to prevent checkpoints. It outlives
+	// the call that happens to start it (the first sync or a checkpoint may be
+	// issued with a request-scoped context): database/sql rolls a transaction
+	// back as soon as the context it was begun with is cancelled, which would
+	// silently drop the read lock.
+	tx, err := db.db.BeginTx(context.WithoutCancel(ctx), nil)
 	if err != nil {
 		return err
 	}
